@@ -373,6 +373,10 @@ func c16Exec(sc c16Scenario) (string, map[string]bool) {
 			s.save(op)
 		case "rebalance":
 			s.rebalance(op)
+		case "end":
+			s.end(op) // transient causes only: the vBucket is requested again and keeps counting as an active stream
+		case "failover":
+			s.failover(op)
 		case "scrape":
 			scrape()
 		}
@@ -392,7 +396,7 @@ func c16Exec(sc c16Scenario) (string, map[string]bool) {
 }
 
 func TestC16_Metrics(t *testing.T) {
-	w := hWeights{deliver: 42, ack: 20, ackidx: 8, save: 6, rebalance: 6, scrape: 14, absorbed: 18, maxVb: 1, minOps: 1, maxOps: scale(60, 200)}
+	w := hWeights{deliver: 42, ack: 20, ackidx: 8, save: 6, rebalance: 6, scrape: 14, end: 4, failover: 2, transientOnly: true, absorbed: 18, maxVb: 1, minOps: 1, maxOps: scale(60, 200)}
 	relGen := rapid.SliceOfN(rapid.SampledFrom([]int{-3, -1, 0, 0, 1, 2, 7, 1000}), 1, 6)
 	rapid.Check(t, func(rt *rapid.T) {
 		sc := c16Scenario{H: genHistory(rt, w)}
